@@ -95,7 +95,8 @@ def run_semantic(res, b, tier, seed, prop, make_cfgs, transform=None, n_quick=40
             prog, src, out, status, ks = g
             for k, v in ks.items():
                 kinds[k] = kinds.get(k, 0) + v
-            cases.append(pipeline.Case("g%d" % i, {"main.tsh": src.encode()}, meta=dict(expected_out=out, expected_status=status, src=src)))
+            cases.append(pipeline.Case("g%d" % i, {"main.tsh": src.encode()}, meta=dict(expected_out=out, expected_status=status, src=src,
+                                                                                        switch_break=bool(ks.get("_switch_break")))))
         d1, f1 = semcheck.check_cases(b, cases)
         if extra_oracle:
             f1 += extra_oracle(b, cases)
@@ -112,7 +113,8 @@ def run_semantic(res, b, tier, seed, prop, make_cfgs, transform=None, n_quick=40
         for c in cases:
             if id(c) not in keep:
                 c.out.clear()
-                c.meta = dict(src=c.meta.get("src", ""), expected_out=c.meta.get("expected_out"), expected_status=c.meta.get("expected_status"))
+                c.meta = dict(src=c.meta.get("src", ""), expected_out=c.meta.get("expected_out"), expected_status=c.meta.get("expected_status"),
+                              switch_break=c.meta.get("switch_break"))
         all_cases.append(len(cases))
         cases = []
         done += m
@@ -137,6 +139,8 @@ def run_semantic(res, b, tier, seed, prop, make_cfgs, transform=None, n_quick=40
     real = []
     for c, kind, detail in fails:
         fid = classify(c, kind, detail) if classify else None
+        if fid is None and c.meta.get("switch_break") and kind == "behaviour":
+            fid = "break-in-switch"
         if fid and res.known_finding(fid, kind):
             continue
         real.append((c, kind, detail))
